@@ -1,29 +1,79 @@
-"""Positive fixtures for rules whose expected count on a healthy tree is zero.
+"""Positive fixtures, analysed on every run (quick tier included).
 
-Each fixture is a tiny overlay analysed on every run (quick tier included); the
-rule must fire on it, otherwise the rule could pass vacuously forever.
+A rule whose expected number of violations on a healthy tree is zero would pass
+vacuously forever if it silently stopped matching.  For each property a small
+set of seeded variants of the *current* source (in-memory overlays, see
+variants.py) must make the property's rules report a new violation; otherwise
+the run is an ANALYSIS-ERROR.  If the source has been edited so that a fixture's
+edit no longer applies, the fixture is reported as not applicable (it cannot
+vouch for anything, but it is not a verdict about the tree either).
 """
 
 from __future__ import annotations
 
-from typing import Callable, Dict, List
+from typing import Dict, List
 
-FIXTURES: Dict[str, List[Callable[[], bool]]] = {}
+FIXTURES: Dict[str, List[str]] = {
+    "C01": ["tags_leaf_adds_when_false", "index_and_is_union"],
+    "C02": ["remove_scan_loop_drops_keep"],
+    "C03": ["update_snapshot_is_alias"],
+    "C04": ["append_without_seek_end"],
+    "C05": ["fields_written_before_tags"],
+    "C06": ["reset_forgets_tags", "insert_handler_does_not_invalidate"],
+    "C07": ["get_tag_keys_scan_unsorted"],
+    "C08": ["insert_default_time_naive"],
+    "C09": ["path_failure_is_true"],
+    "C10": ["measurement_count_drops_filter"],
+    "C11": ["temp_op_without_finally"],
+    "C12": ["reset_writes_data"],
+    "C13": ["fsync_error_swallowed"],
+    "C14": ["validate_fields_accepts_bool"],
+    "C15": ["insert_ungated"],
+    "C16": ["insert_reads_storage", "insert_loops_over_storage"],
+    "C17": ["map_keeps_hash"],
+    "C18": ["find_lt_off_by_one"],
+}
 
 
-def fixture(prop: str):
-    def deco(fn):
-        FIXTURES.setdefault(prop, []).append(fn)
-        return fn
-    return deco
-
-
-def run(prop: str) -> dict:
+def run(prop: str, ctx=None, base=None) -> dict:
+    from . import variants as vmod
+    from .context import Ctx
     from .model import AnalysisError
+    from .report import rules_for, run_rule
+
+    names = FIXTURES.get(prop, [])
+    if not names or ctx is None:
+        return {}
+    norm = vmod.normalise_sources(ctx.prog)
+    byname = {v.name: v for v in vmod.V}
     out = {}
-    for fn in FIXTURES.get(prop, []):
-        ok = bool(fn())
-        out[fn.__name__] = "fires" if ok else "SILENT"
-        if not ok:
-            raise AnalysisError(prop, f"positive fixture {fn.__name__} did not fire: rule is vacuous")
+    n_fired = 0
+    for nm in names:
+        v = byname.get(nm)
+        if v is None:
+            raise AnalysisError(prop, f"fixture variant {nm} is not defined")
+        try:
+            ov = v.overlay(norm)
+        except vmod.NotApplicable as e:
+            out[nm] = "not-applicable on this tree"
+            continue
+        c2 = Ctx(ctx.prog.root, ov)
+        viol = set()
+        try:
+            for r in rules_for(prop):
+                for o in run_rule(r, c2, prop):
+                    if not o.ok:
+                        viol.add((o.rule, o.key))
+        except AnalysisError as e:
+            # an anchor vanished in the broken variant: the breakage was noticed, loudly
+            out[nm] = f"fires (as analysis error: {str(e)[:80]})"
+            n_fired += 1
+            continue
+        new = viol - (base or set())
+        if new:
+            out[nm] = "fires: " + sorted(new)[0][0]
+            n_fired += 1
+        else:
+            out[nm] = "SILENT"
+            raise AnalysisError(prop, f"positive fixture {nm} did not fire: a rule of {prop} is vacuous")
     return out
